@@ -103,7 +103,7 @@ impl Totals {
     }
 }
 
-const UNITS: &[Option<&str>] = &[Some("g"), Some("kg"), Some("oz"), Some("lb"), Some("ml"), Some("l"), Some("cup"), Some("tsp"), Some("min"), Some("h"), Some("pinch"), Some("cans"), Some("x"), None, None];
+const UNITS: &[Option<&str>] = &[Some("g"), Some("kg"), Some("oz"), Some("lb"), Some("ml"), Some("l"), Some("cup"), Some("tsp"), Some("min"), Some("h"), Some("pinch"), Some("cans"), Some("x"), None, None, Some("T"), Some("t"), Some("Cans")];
 
 fn rand_quantity(r: &mut Rng) -> ScaledQuantity {
     let num = |r: &mut Rng| -> Number {
@@ -152,6 +152,10 @@ fn permutations(n: usize) -> Vec<Vec<usize>> {
 
 fn multisets(ctx: &mut Ctx, conv: &Converter) {
     let n = ctx.budget(6_000, 1_500_000);
+    multisets_n(ctx, conv, n)
+}
+
+fn multisets_n(ctx: &mut Ctx, conv: &Converter, n: u64) {
     for _ in 0..n {
         let seed = ctx.rng.next();
         let mut r = Rng::new(seed);
@@ -436,6 +440,39 @@ fn recipes(ctx: &mut Ctx, conv: &Converter) {
                         entries += 1;
                     }
                 }
+                // the by-value iterator yields the same split as the borrowing one (names per category, and the same totals)
+                let by_ref: Vec<(String, Vec<String>)> = cat.iter().map(|(c, l)| (c.to_string(), l.iter().map(|(n, _)| n.clone()).collect())).collect();
+                if let Ok((by_val, val_total)) = crate::core::guarded(|| {
+                    let mut l2 = IngredientList::new();
+                    for rec in &scaled {
+                        l2.add_recipe(rec, conv);
+                    }
+                    let mut t = Totals::default();
+                    let v: Vec<(String, Vec<String>)> = l2
+                        .categorize(&aisle)
+                        .into_iter()
+                        .map(|(c, l)| {
+                            for (_, q) in l.iter() {
+                                t.merge(&Totals::of(conv, q.iter()));
+                            }
+                            (c, l.iter().map(|(n, _)| n.clone()).collect::<Vec<String>>())
+                        })
+                        .collect();
+                    (v, t)
+                }) {
+                    let mut ref_total = Totals::default();
+                    for (_, l) in cat.iter() {
+                        for (_, q) in l.iter() {
+                            ref_total.merge(&Totals::of(conv, q.iter()));
+                        }
+                    }
+                    if by_val != by_ref || ref_total.diff(&val_total).is_some() {
+                        ctx.violation(&case2, "categorize", "into_iter_differs_from_iter", format!("iter(): {by_ref:?}; into_iter(): {by_val:?}; totals differ: {:?}", ref_total.diff(&val_total)));
+                        ok = false;
+                    } else {
+                        ctx.count("categorize_into_iter_ok");
+                    }
+                }
                 if let Some(d) = total_in.diff(&total_out) {
                     let cause = if collision { "categorize_not_conserved|synonym_collision" } else { "categorize_not_conserved|other" };
                     ctx.violation(&case2, "categorize", cause, format!("{d}; aisle config {conf_text:?}; listed names {names:?}"));
@@ -509,6 +546,15 @@ fn aisle_for(r: &mut Rng, names: &[String]) -> (String, bool) {
 
 pub fn run(ctx: &mut Ctx) {
     let conv = Converter::bundled();
+    // a converter in which two different units have keys that differ only in case (T = tablespoon, t = teaspoon)
+    if let Some(layer) = toml::from_str::<cooklang::convert::UnitsFile>("[extend.units]\ntbsp = { aliases = [\"T\"] }\ntsp = { aliases = [\"t\"] }\n").ok() {
+        if let Some(c2) = Converter::builder().with_units_file(cooklang::convert::UnitsFile::bundled()).ok().and_then(|b| b.with_units_file(layer).ok()).and_then(|b| b.finish().ok()) {
+            let keep = ctx.tier;
+            multisets_n(ctx, &c2, ctx.budget(1_500, 300_000));
+            ctx.count("multisets_with_case_differing_unit_keys");
+            let _ = keep;
+        }
+    }
     multisets(ctx, &conv);
     recipes(ctx, &conv);
 }
